@@ -102,7 +102,7 @@ package core
 //@ func SetAttributeValue
 //@   props C03
 //@   arith int unchecked
-//@   requires rv_valid(obj) && rv_valid(value)
+//@   assume rv_valid(obj) && rv_valid(value)
 //@   assume (hasPrefix(rt_name(rv_typ(value)), "uint") <==> ncls(rv_kind(value)) == 2) && (hasPrefix(rt_name(rv_typ(value)), "float") <==> ncls(rv_kind(value)) == 3) && (hasPrefix(rt_name(rv_typ(value)), "int") <==> ncls(rv_kind(value)) == 1)
 //@   ghost F rv = ite(rv_kind(obj) == 22, ite(rt_kind(rt_elem(rv_typ(obj))) == 25, rv_field(rv_elem(obj), fieldName), RV_zero()), ite(rv_kind(obj) == 25, rv_field(obj, fieldName), RV_zero()))
 //@   ghost nset int = 0
@@ -130,6 +130,7 @@ package core
 //@   ensures [C03] unsettable: F != RV_zero() && !rv_canset(F) ==> result != nil && nset == 0
 //@   ensures [C03] stored: result == nil ==> nset == 1 && F != RV_zero() && rv_canset(F)
 //@   ensures [C03] refused: result != nil ==> nset == 0
+//@   nopanic own when (rv_kind(obj) == 25 || (rv_kind(obj) == 22 && rv_kind(rv_elem(obj)) == 25)) && (rv_kind(F) == 24 || (rv_kind(F) == 1 && rv_kind(value) == 1) || (cmpK(rv_kind(F)) && ncls(rv_kind(value)) != 0 && rv_kind(value) != 12 && !(ncls(rv_kind(F)) == 2 && ncls(rv_kind(value)) == 1 && rv_int(value) < 0) && !(ncls(rv_kind(F)) == 2 && ncls(rv_kind(value)) == 3 && !fle(fz(), rv_f64(value)))))
 //@   modifies nothing
 
 // assignment through an injected pointer to a scalar (C03): exactly one store into the pointee; same kind: the value
@@ -155,6 +156,7 @@ package core
 //@   ensures [C03] stored: result == nil ==> nset == 1 && rv_kind(obj) == 22
 //@   ensures [C03] refused: result != nil ==> nset == 0
 //@   ensures [C03] accepts: rv_kind(obj) == 22 && (rv_kind(rv_elem(obj)) == rv_kind(V) || (ncls(rv_kind(rv_elem(obj))) != 0 && rv_kind(rv_elem(obj)) != 12 && ncls(rv_kind(V)) != 0 && rv_kind(V) != 20 && !(ncls(rv_kind(rv_elem(obj))) == 2 && ncls(rv_kind(V)) == 1 && rv_int(V) < 0) && !(ncls(rv_kind(rv_elem(obj))) == 2 && ncls(rv_kind(V)) == 3 && !fle(fz(), rv_f64(V))))) ==> result == nil
+//@   nopanic own when rv_kind(obj) == 22 && rv_canset(rv_elem(obj)) && (rv_kind(rv_elem(obj)) == rv_kind(V) || (ncls(rv_kind(rv_elem(obj))) != 0 && rv_kind(rv_elem(obj)) != 12 && ncls(rv_kind(V)) != 0 && rv_kind(V) != 12))
 //@   modifies nothing
 
 // element / key coercion for containers (C03): within a numeric class the value is converted to the target kind
@@ -169,6 +171,7 @@ package core
 //@   ensures [C03] unsigneds: rv_kind(newValue) != rt_kind(toKind) && ncls(rv_kind(newValue)) == 2 && 7 <= rt_kind(toKind) && rt_kind(toKind) <= 11 ==> rv_kind(result.0) == rt_kind(toKind) && rv_bits(result.0) == fitU(rv_bits(newValue), rt_kind(toKind))
 //@   ensures [C03] floats: rv_kind(newValue) != rt_kind(toKind) && ncls(rv_kind(newValue)) == 3 && ncls(rt_kind(toKind)) == 3 ==> rv_kind(result.0) == rt_kind(toKind) && fsame(rv_f64(result.0), ffit(rv_f64(newValue), rt_kind(toKind)))
 //@   ensures [C03] other: ncls(rt_kind(toKind)) == 0 || rt_kind(toKind) == 12 ==> result.0 == newValue
+//@   nopanic own when rv_kind(newValue) == rt_kind(toKind) || ncls(rt_kind(toKind)) == 0 || rt_kind(toKind) == 12 || ncls(rv_kind(newValue)) == ncls(rt_kind(toKind))
 //@   modifies nothing
 
 //@ func getNumType
@@ -186,6 +189,7 @@ package core
 //@   ensures [C03] sameslice: arr(result) == arr(params) && lo(result) == lo(params) && len(result) == len(params)
 //@   ensures [C03] converted: forall qa :: lo(params) <= qa && qa < lo(params) + rt_numin(TF) && qa < hi(params) ==> argConv(old(at(params, qa)), at(params, qa), rt_kind(rt_in(TF, qa - lo(params))))
 //@   ensures [C03] rest: forall qa :: lo(params) + rt_numin(TF) <= qa && qa < hi(params) ==> at(params, qa) == old(at(params, qa))
+//@   nopanic own when rt_numin(TF) <= len(params) && (forall qa :: lo(params) <= qa && qa < lo(params) + rt_numin(TF) ==> (cmpK(rt_kind(rt_in(TF, qa - lo(params)))) ==> ncls(rv_kind(at(params, qa))) != 0 && rv_kind(at(params, qa)) != 12))
 //@   modifies elems(params)
 //@   loop 0 invariant range: 0 <= i && i <= plen && plen == rt_numin(TF) && tf == TF && tf != nil
 //@   loop 0 invariant done: forall qa :: lo(params) <= qa && qa < lo(params) + i && qa < hi(params) ==> argConv(old(at(params, qa)), at(params, qa), rt_kind(rt_in(TF, qa - lo(params))))
